@@ -699,7 +699,7 @@ EXC_BASES = {
     "AttributeError": "Exception", "RuntimeError": "Exception", "NotImplementedError": "RuntimeError",
     "OSError": "Exception", "struct.error": "Exception", "AssertionError": "Exception",
     "StopIteration": "Exception", "CallbackError": "Exception", "json.JSONDecodeError": "ValueError",
-    "ConnectionError": "OSError", "ConnectionResetError": "ConnectionError", "ConnectionRefusedError": "ConnectionError",
+    "ConnectionError": "OSError", "ConnectionResetError": "ConnectionError", "BrokenPipeError": "ConnectionError", "ConnectionAbortedError": "ConnectionError", "ConnectionRefusedError": "ConnectionError",
     "TimeoutError": "OSError", "asyncio.TimeoutError": "TimeoutError", "KeyboardInterrupt": "BaseException",
     "asyncio.CancelledError": "BaseException",
 }
@@ -710,5 +710,9 @@ def exc_isinstance(cls, target):
     while c is not None:
         if c == target:
             return True
+        if c not in EXC_BASES and c != "BaseException":
+            # never guess: an exception class outside the modelled hierarchy must not silently fail to match a handler
+            from .interp import Unsupported
+            raise Unsupported(f"exception class {c} is not in the modelled class hierarchy")
         c = EXC_BASES.get(c)
     return False
